@@ -41,6 +41,7 @@ fn run_check(id: &str, tier: Tier) -> Option<Report> {
         "C17" => checks::c17::run(tier),
         "C18" => checks::c18::run(tier),
         "C19" => checks::c19::run(tier),
+        "C20" => checks::c20::run(tier),
         _ => return None,
     })
 }
@@ -66,6 +67,7 @@ fn replay_case(id: &str, case: &Value) -> Option<Vec<Failure>> {
         "C17" => checks::c17::replay(case),
         "C18" => checks::c18::replay(case),
         "C19" => checks::c19::replay(case),
+        "C20" => checks::c20::replay(case),
         _ => return None,
     })
 }
@@ -180,7 +182,7 @@ mod sched_tests {
         s.request("textDocument/foldingRange", doc_request_params("textDocument/foldingRange", URI));
         s.msgs.push(request(99, "shutdown", serde_json::Value::Null));
         s.msgs.push(notification("exit", serde_json::Value::Null));
-        let env = EnvConfig { chunks: vec![s.bytes()], feeder_task: false, clamp: None, stdout_cap: None };
+        let env = EnvConfig { chunks: vec![s.bytes()], feeder_task: false, clamp: None, stdout_cap: None, delay_bounded: false };
         let mut last = 0;
         for b in 0..=2 {
             let t = std::time::Instant::now();
@@ -194,5 +196,23 @@ mod sched_tests {
         let base = run_inproc(&s.bytes());
         let e = explore(&env, 0);
         assert_eq!(e.outcomes.keys().next().unwrap(), &base.raw);
+    }
+}
+
+#[cfg(test)]
+mod burst_timing {
+    use crate::checks::c20::*;
+    #[test]
+    fn timing() {
+        for (n, b, clamp, cap) in [(10usize, 1usize, None, None), (40, 0, None, None), (40, 0, None, Some(64)), (40, 1, None, None), (20, 1, Some(1), Some(32))] {
+            let t = std::time::Instant::now();
+            let sc: Vec<Op> = {
+                let mut sc = vec![Op::Open(0, 0)];
+                for i in 0..n { sc.push(Op::Change(0, if i % 3 == 2 { 1 } else { 0 })); sc.push(Op::Request(0, 0)); }
+                sc
+            };
+            let (k, f) = eval_scenario(&sc, true, b, clamp, cap, true, true);
+            println!("burst {} bound {} clamp {:?} cap {:?}: {} executions in {:?} fail {:?}", n, b, clamp, cap, k, t.elapsed(), f.map(|x| x.0));
+        }
     }
 }
